@@ -74,6 +74,10 @@ func generate(t *testing.T, run *hx.Run) {
 			for _, l := range []string{"op U0 deposit @U0 100000 nil", "op K0 candadd #K0", "op K1 candadd #K1"} {
 				emitGroup(run, w, []string{l}, nil)
 			}
+			for _, grp := range competingAcceptance(n, i+run.Shard) {
+				emitGroup(run, w, grp, nil)
+				run.Count("directed.competing-acceptance")
+			}
 			for j := 0; j < nops; j++ {
 				emitGroup(run, w, g.next(), &sample)
 			}
@@ -84,11 +88,11 @@ func generate(t *testing.T, run *hx.Run) {
 		exhaustive(t, run, caseID)
 	}
 	if kindEnabled("gas") {
-		cases, nops := 10, 110
+		cases, nops := 10, 100
 		if thorough {
 			cases, nops = 12, 200
 		}
-		fees := []string{"7", "0", "1", "100000000", "none", "-3"}
+		fees := []string{"7", "0", "1", "100000000", "none", "-3", "900000000000", "900000000001"}
 		for i := 0; i < cases; i++ {
 			rng := run.Rand(2000 + i)
 			mc := mainCfg{nd: (i+run.Shard)%2 == 1, n: 1 + rng.IntN(7), wfee: "7", cfee: "11"}
@@ -100,6 +104,10 @@ func generate(t *testing.T, run *hx.Run) {
 			run.Case(encodeID("main", w.cfg.attrs(), caseID("gas")), w.caseAttrs()...)
 			g := &gasGen{w: w, rng: rng}
 			var sample []string
+			for _, grp := range g.candidateFees(i + run.Shard) {
+				emitGroup(run, w, grp, nil)
+				run.Count("directed.candidate-fee")
+			}
 			for j := 0; j < nops; j++ {
 				emitGroup(run, w, g.next(), &sample)
 			}
@@ -276,6 +284,57 @@ func (g *voteGen) next() []string {
 	return grp
 }
 
+// competingAcceptance: directed histories inside C17's quantifier (two competing ids, several votes per block,
+// gaps at the window). Decision B collects threshold-1 votes in block h; decision A collects threshold-1 votes in
+// block h+1 and is accepted in the block at height h+gap, gap in {19,20,21}; in that SAME block B receives its
+// threshold-th distinct vote, after or before A's accepting vote. B must fire for gaps 19 and 20 (whatever happens
+// to A in that block) and must start a new ballot for gap 21.
+func competingAcceptance(n, variant int) (groups [][]string) {
+	thr := n*2/3 + 1
+	if thr < 2 {
+		return nil
+	}
+	mk := func(method, id string, voter, k int) string {
+		switch method {
+		case "cheque":
+			return fmt.Sprintf("op A%d cheque %s @U1 %d bb", voter, id, 3+k)
+		case "aupd": // the same list again: executes, keys unchanged
+			var ks []string
+			for i := 0; i < n; i++ {
+				ks = append(ks, fmt.Sprintf("#A%d", i))
+			}
+			return fmt.Sprintf("op A%d aupd %s %s", voter, id, strings.Join(ks, ","))
+		}
+		return fmt.Sprintf("op A%d setcfg %s 6d %02x", voter, id, 0x40+k)
+	}
+	same := func(ls []string) []string {
+		for i := 1; i < len(ls); i++ {
+			ls[i] += " blk=s"
+		}
+		return ls
+	}
+	k := 0
+	for _, gap := range []int{20, 19, 21} {
+		for _, bAfter := range []bool{true, false} {
+			k++
+			mA := []string{"setcfg", "cheque", "aupd"}[(k+variant)%3]
+			mB := []string{"cheque", "setcfg"}[(k+variant/3)%2]
+			idA, idB := fmt.Sprintf("da%02x", k), fmt.Sprintf("db%02x", k)
+			var bVotes, aVotes []string
+			for v := 0; v < thr-1; v++ {
+				bVotes = append(bVotes, mk(mB, idB, v, k))
+				aVotes = append(aVotes, mk(mA, idA, v, k))
+			}
+			last := []string{mk(mA, idA, thr-1, k), mk(mB, idB, thr-1, k)}
+			if !bAfter {
+				last[0], last[1] = last[1], last[0]
+			}
+			groups = append(groups, same(bVotes), same(aVotes), []string{fmt.Sprintf("op - skip %d", gap-2)}, same(last))
+		}
+	}
+	return
+}
+
 // exhaustive: every sequence over (voter, id) of length <= L for n <= N, one sequence per block, fresh ids per
 // sequence so that one deployment serves many sequences (earlier ballots stay around until they expire).
 func exhaustive(t *testing.T, run *hx.Run, caseID func(string) string) {
@@ -426,6 +485,38 @@ func (g *gasGen) alpha(method, rest string, cand bool) []string {
 }
 
 var gasID int
+
+// candidateFees: directed histories inside C19's quantifier ("fee settings", "candidate operations"): the Alphabet
+// sets InnerRingCandidateFee to 0, 9000 GAS + 1 and one of {1, 9000 GAS, 20 000 GAS}, and after each setting a
+// candidate holding 100 000 GAS registers (and withdraws its candidacy again): exactly the configured fee is charged.
+func (g *gasGen) candidateFees(variant int) (groups [][]string) {
+	key := hx.Hex([]byte("InnerRingCandidateFee"))
+	fees := []int64{0, maxDeposit + 1, []int64{1, maxDeposit, 2000000000000}[variant%3]}
+	for i, fee := range fees {
+		gasID++
+		groups = append(groups, g.alphaExact("setcfg", fmt.Sprintf("%04x %s %s", gasID, key, hx.Hex(intToBytes(fee)))))
+		k := fmt.Sprintf("K%d", (i+variant)%nCands)
+		groups = append(groups, []string{fmt.Sprintf("op %s candadd #%s", k, k)}, []string{fmt.Sprintf("op %s candrm #%s", k, k)})
+	}
+	return
+}
+
+// alphaExact: the decision approved by exactly the needed Alphabet votes (vote mode, one block) or the multisignature
+func (g *gasGen) alphaExact(method, rest string) []string {
+	if !g.w.cfg.nd {
+		return []string{fmt.Sprintf("op cmt %s %s", method, rest)}
+	}
+	thr := g.w.cfg.n*2/3 + 1
+	var grp []string
+	for i := 0; i < thr; i++ {
+		l := fmt.Sprintf("op A%d %s %s", i, method, rest)
+		if i > 0 {
+			l += " blk=s"
+		}
+		grp = append(grp, l)
+	}
+	return grp
+}
 
 func (g *gasGen) next() []string {
 	users := []string{"U0", "U1", "U2"}
